@@ -4,7 +4,7 @@
    stops reading, and the daemon state).  Generated: NV.gen.VmdConsts (vmd_protocol.h + golden frames written by the real
    vmd_msg_send), NV.gen.VmdFacts (clang AST of client_thread / run_standalone; SigIgn mask of the built daemon). *)
 From Coq Require Import NArith ZArith List Bool.
-From NV Require Import Base.Bytes gen.VmdConsts gen.VmdFacts Proto.Vmd Proto.VmdProofs.
+From NV Require Import Base.Bytes gen.VmdConsts gen.VmdFacts gen.SigpipeSites Proto.Vmd Proto.VmdProofs.
 Import ListNotations.
 Local Open Scope N_scope.
 
@@ -33,6 +33,18 @@ Theorem C18_sigpipe_ignored : vmd_ignores_sigpipe = true.
 Proof. vm_compute. reflexivity. Qed.
 Print Assumptions C18_sigpipe_ignored.
 
+(* every call in the sources linked into nano_vmd that sets the SIGPIPE disposition and can be reached from a session handler
+   (outside a forked child) installs SIG_IGN: no session can take the process out of the state setup_signals put it in.
+   Table: NV.gen.SigpipeSites (clang AST + relocation-graph reachability).  Breaks when such a call appears. *)
+Theorem C18_no_session_resets_sigpipe : sigpipe_sites_ok = true.
+Proof. vm_compute. reflexivity. Qed.
+Print Assumptions C18_no_session_resets_sigpipe.
+
+(* ... and the start-up path does install SIG_IGN *)
+Theorem C18_startup_ignores_sigpipe : sigpipe_startup_ignores = true.
+Proof. vm_compute. reflexivity. Qed.
+Print Assumptions C18_startup_ignores_sigpipe.
+
 (* ---- frame codec ---- *)
 Theorem C18_frame_round_trip : forall f rest, wf_frame f -> decode_frame (encode_frame f ++ rest) = Some (f, rest).
 Proof. exact decode_encode_frame. Qed.
@@ -55,49 +67,70 @@ Theorem C18_session_ends : forall c O input wb d, alive d = true ->
   exists sent d', client_thread c O input wb d = (sent, d') /\
     prefix sent (concat (map encode_frame (reply_frames c O input d))) /\
     (wb = None -> sent = concat (map encode_frame (reply_frames c O input d))) /\
-    (header_refused input -> sent = [] /\ alive d' = true) /\
+    (header_refused input -> sent = [] /\ alive d' = true /\ sigign d' = sigign d) /\
     (alive d' = true -> active d' = active d).
 Proof. exact session_ends. Qed.
 Print Assumptions C18_session_ends.
 
-(* ---- survival ---- *)
-(* a daemon that ignores SIGPIPE and verifies before executing survives every list of sessions; no client is left counted *)
+(* ---- survival ----
+   The SIGPIPE disposition is part of the daemon's state (sigign): it starts as setup_signals leaves it and a session whose
+   program used the FFI co-process leaves c_ffi_sets behind. *)
+(* a daemon that starts with SIGPIPE ignored, in which no session resets the disposition, and that verifies before executing
+   survives every list of sessions; no client is left counted; SIGPIPE is still ignored *)
 Theorem C18_daemon_survives : forall c O ss,
-  c_ignores_sigpipe c = true -> c_verify_first c = true -> oracle_safe O ->
-  alive (serve c O d0 ss) = true /\ active (serve c O d0 ss) = 0%Z.
+  c_ignores_sigpipe c = true -> keeps_sigign c -> c_verify_first c = true -> oracle_safe O ->
+  alive (serve c O (boot c) ss) = true /\ active (serve c O (boot c) ss) = 0%Z /\ sigign (serve c O (boot c) ss) = true.
 Proof. exact daemon_survives_generic. Qed.
 Print Assumptions C18_daemon_survives.
 
 (* the daemon as built from the current tree (facts regenerated on every run):
-   if client_thread verifies first, it survives everything; if it does not (today), one session with a module that
-   nvm_verify refuses kills it (refutation, replayed on the real binary by the check), while it still survives every
-   session list in which no module faults -- i.e. all malformed / truncated / abandoned behaviours. *)
+   with the SIGPIPE table in order: if client_thread verifies first it survives everything; if it does not, one session with a
+   module that nvm_verify refuses kills it, while it still survives every session list in which no module faults;
+   if some session-reachable call resets SIGPIPE: an FFI session followed by a client that hangs up while its program prints
+   kills it (refutation branch, replayed on the real binary by the check). *)
 Theorem C18_daemon_survives_current :
   vmd_ignores_sigpipe = true ->
-  (verify_before_execute = true ->
-     forall O ss, oracle_safe O -> alive (serve real_cfg O d0 ss) = true /\ active (serve real_cfg O d0 ss) = 0%Z) /\
-  (verify_before_execute = false ->
-     (exists O ss, oracle_safe O /\ alive (serve real_cfg O d0 ss) = false) /\
-     (forall O ss, oracle_total O -> alive (serve real_cfg O d0 ss) = true /\ active (serve real_cfg O d0 ss) = 0%Z)).
+  (sigpipe_sites_ok = true ->
+     (verify_before_execute = true ->
+        forall O ss, oracle_safe O ->
+          alive (serve real_cfg O (boot real_cfg) ss) = true /\ active (serve real_cfg O (boot real_cfg) ss) = 0%Z /\
+          sigign (serve real_cfg O (boot real_cfg) ss) = true) /\
+     (verify_before_execute = false ->
+        (exists O ss, oracle_safe O /\ alive (serve real_cfg O (boot real_cfg) ss) = false) /\
+        (forall O ss, oracle_total O ->
+          alive (serve real_cfg O (boot real_cfg) ss) = true /\ active (serve real_cfg O (boot real_cfg) ss) = 0%Z /\
+          sigign (serve real_cfg O (boot real_cfg) ss) = true))) /\
+  (ffi_sets_of sigpipe_sites = Some false ->
+     exists O ss, oracle_total O /\ alive (serve real_cfg O (boot real_cfg) ss) = false).
 Proof. exact daemon_survives_current. Qed.
 Print Assumptions C18_daemon_survives_current.
 
-Theorem C18_unverified_daemon_dies_refuted : forall c, c_verify_first c = false ->
-  alive (serve c hostile_oracle d0 [hostile_session]) = false.
+Theorem C18_unverified_daemon_dies_refuted : forall c, c_ignores_sigpipe c = true -> c_verify_first c = false ->
+  alive (serve c hostile_oracle (boot c) [hostile_session]) = false.
 Proof. exact unverified_daemon_dies. Qed.
 Print Assumptions C18_unverified_daemon_dies_refuted.
 
 (* the SIGPIPE fact is load-bearing: with the default disposition one abandoned PING kills the daemon *)
 Theorem C18_sigpipe_needed : forall c, c_ignores_sigpipe c = false ->
-  alive (serve c benign_oracle d0 [(encode_frame (fr VMD_MSG_PING []), Some O)]) = false.
+  alive (serve c benign_oracle (boot c) [(encode_frame (fr VMD_MSG_PING []), Some O)]) = false.
 Proof. exact sigpipe_default_kills. Qed.
 Print Assumptions C18_sigpipe_needed.
 
+(* ... and it is state, not configuration: where a co-process session leaves SIGPIPE at something else than SIG_IGN, the history
+   [FFI session; client that hangs up while printing] kills a daemon that started with SIGPIPE ignored, while the reversed history
+   and the hang-up alone do not *)
+Theorem C18_ffi_reset_kills_refuted : forall c, c_ignores_sigpipe c = true -> c_ffi_sets c = Some false ->
+  alive (serve c ffi_oracle (boot c) ffi_then_abandon) = false /\
+  alive (serve c ffi_oracle (boot c) (rev ffi_then_abandon)) = true /\
+  alive (serve c ffi_oracle (boot c) [(load_exec_request [2], Some 2%nat)]) = true.
+Proof. exact ffi_reset_kills. Qed.
+Print Assumptions C18_ffi_reset_kills_refuted.
+
 (* ---- clients that come later are served as if nothing had happened (STATUS reports the shared count and is excluded) ---- *)
 Theorem C18_later_clients_ok : forall c O bad input wb,
-  c_ignores_sigpipe c = true -> exec_guard c O ->
+  c_ignores_sigpipe c = true -> keeps_sigign c -> exec_guard c O ->
   (forall h rest, recv_header input = ROk h rest -> h_type h <> VMD_MSG_STATUS) ->
-  fst (client_thread c O input wb (serve c O d0 bad)) = fst (client_thread c O input wb d0).
+  fst (client_thread c O input wb (serve c O (boot c) bad)) = fst (client_thread c O input wb (boot c)).
 Proof. exact later_clients_ok. Qed.
 Print Assumptions C18_later_clients_ok.
 
@@ -106,11 +139,13 @@ Example C18_hostile_oracle_is_safe : oracle_safe hostile_oracle.
 Proof. exact hostile_oracle_safe. Qed.
 Example C18_benign_oracle_is_total : oracle_total benign_oracle.
 Proof. exact benign_oracle_total. Qed.
+Example C18_ffi_oracle_is_total : oracle_total ffi_oracle.
+Proof. exact ffi_oracle_total. Qed.
 (* PING -> PONG; wrong version -> closed without reply; unknown type -> ERROR; announced 5 bytes, 3 sent -> ERROR *)
 Example C18_sessions_concrete :
-  fst (client_thread real_cfg benign_oracle [1;2;0;0;0;0;0;0] None d0) = [1;19;0;0;0;0;0;0] /\
-  fst (client_thread real_cfg benign_oracle [2;2;0;0;0;0;0;0] None d0) = [] /\
-  fst (client_thread real_cfg benign_oracle [1;9;0;0;0;0;0;0] None d0) = encode_frame (error_frame txt_unknown_type) /\
-  fst (client_thread real_cfg benign_oracle [1;1;0;0;5;0;0;0;97;98;99] None d0) = encode_frame (error_frame txt_payload_read) /\
-  serve real_cfg benign_oracle d0 [([1;4;0;0;0;0;0;0], None)] = {| alive := true; active := 0; shutdown := true |}.
+  fst (client_thread real_cfg benign_oracle [1;2;0;0;0;0;0;0] None (boot real_cfg)) = [1;19;0;0;0;0;0;0] /\
+  fst (client_thread real_cfg benign_oracle [2;2;0;0;0;0;0;0] None (boot real_cfg)) = [] /\
+  fst (client_thread real_cfg benign_oracle [1;9;0;0;0;0;0;0] None (boot real_cfg)) = encode_frame (error_frame txt_unknown_type) /\
+  fst (client_thread real_cfg benign_oracle [1;1;0;0;5;0;0;0;97;98;99] None (boot real_cfg)) = encode_frame (error_frame txt_payload_read) /\
+  serve real_cfg benign_oracle (boot real_cfg) [([1;4;0;0;0;0;0;0], None)] = {| alive := true; active := 0; shutdown := true; sigign := true |}.
 Proof. vm_compute. repeat split; reflexivity. Qed.
